@@ -7,7 +7,6 @@ import (
 	"sync"
 	"sync/atomic"
 	"testing"
-	"time"
 
 	"github.com/libsv/go-bt/v2/bscript"
 	"github.com/libsv/go-bt/v2/bscript/interpreter"
@@ -98,6 +97,10 @@ func fuScripts(c FUCase, round int) (lock []byte, unlockPrefix []byte) {
 }
 
 func checkFirstUse(ctx *pbt.Ctx, c FUCase) error {
+	if skipAbandoned(ctx) {
+		return nil
+	}
+	var bt8 beat
 	if c.Rounds < 1 || c.Rounds > 2000 || c.Procs < 1 || c.Procs > 64 || c.Goroutines < 2 || c.Goroutines > 32 ||
 		c.Size < 0 || c.Size > 1<<16 || c.Shape < 0 || c.Shape > 3 || c.PerG < 1 || c.PerG > 8 {
 		ctx.Discard("malformed case")
@@ -160,6 +163,7 @@ func checkFirstUse(ctx *pbt.Ctx, c FUCase) error {
 							got[g][j].err = err.Error()
 						}
 					}()
+					bt8.tick()
 				}
 			}(g)
 		}
@@ -169,10 +173,8 @@ func checkFirstUse(ctx *pbt.Ctx, c FUCase) error {
 		atomic.StoreInt32(&gate, 1)
 		done := make(chan struct{})
 		go func() { wg.Wait(); close(done) }()
-		select {
-		case <-done:
-		case <-time.After(120 * time.Second):
-			return fmt.Errorf("round %d: the validations did not return within 120 s", round)
+		if err := bounded(done, &bt8, fmt.Sprintf("round %d: %d goroutines validating on one engine", round, c.Goroutines)); err != nil {
+			return err
 		}
 		for g := range got {
 			for j, k := range ks[g] {
